@@ -16,8 +16,8 @@ CONSTANT Canonical        \* TRUE: members in source order, then missing checks 
 
 Inputs == ndJsonDeserialize(IOEnv.MCIN)
 
-VARIABLES stack, cur, made, reps, hist, out, phase, stopped, newAfterStop
-mvars == <<stack, cur, made, reps, hist, out, phase, stopped, newAfterStop>>
+VARIABLES stack, cur, made, reps, hist, out, phase, stopped, newAfterStop, idc, fnf, usedfn
+mvars == <<stack, cur, made, reps, hist, out, phase, stopped, newAfterStop, idc, fnf, usedfn>>
 
 MkCur(i) == [idx |-> i, ty |-> Inputs[i].ty, val |-> Inputs[i].val, pk |-> Inputs[i].pk, canonical |-> Canonical]
 
@@ -27,6 +27,7 @@ Init == /\ cur \in {MkCur(i) : i \in 1..Len(Inputs)}
         /\ stack = PushRoot(cur)
         /\ made = {} /\ reps = <<>> /\ hist = <<>> /\ out = NoOut /\ phase = "running"
         /\ stopped = FALSE /\ newAfterStop = 0
+        /\ idc = 0 /\ fnf = {} /\ usedfn = FALSE
 
 SetAsSeq(S) == LET RECURSIVE f(_) f(T) == IF T = {} THEN <<>> ELSE LET x == CHOOSE y \in T : TRUE IN <<x>> \o f(T \ {x}) IN f(S)
 Max(S) == CHOOSE x \in S : \A y \in S : x >= y
@@ -34,11 +35,12 @@ Max(S) == CHOOSE x \in S : \A y \in S : x >= y
 (* the value a frame returns when everything below succeeded (constructive twin of Deserr!ValueAgrees) *)
 ValueOfFrame(F) ==
     LET N == Nodes[F.n] IN
-    CASE F.ph = "leafok" -> F.okv
+    CASE F.vst = "ok" -> F.fv
+      [] F.ph = "leafok" -> F.okv
       [] N.c \in {"vec", "arr", "tup"} -> RV("list", FALSE, 0, DZero, "", "", [i \in 1..Len(F.val.e) |-> ResOf(F, Ob("elem", i))])
       [] N.c \in {"hset", "bset"} -> RV("set", FALSE, 0, DZero, "", "", SetAsSeq({ResOf(F, Ob("elem", i)) : i \in 1..Len(F.val.e)}))
       [] N.c = "opt" -> RV("some", FALSE, 0, DZero, "", "", <<ResOf(F, Ob("inner", 1))>>)
-      [] N.c = "box" -> ResOf(F, Ob("inner", 1))
+      [] N.c \in {"box", "cfrom"} -> ResOf(F, Ob("inner", 1))
       [] N.c \in {"hmap", "bmap"} ->
             LET keys == {F.parsed[j] : j \in 1..Len(F.val.e)}
                 last(k) == Max({j \in 1..Len(F.val.e) : F.parsed[j] = k})
@@ -46,18 +48,28 @@ ValueOfFrame(F) ==
       [] N.c \in {"struct", "enum"} ->
             LET fs == FieldsOfNode(N, F.vi)
                 fv(fi) == LET ms == {j \in 1..Len(F.val.e) : HasRes(F, Ob("entry", j)) /\ Route(N, F.vi, F.val.e[j].k) = fi}
-                          IN IF ms = {} THEN fs[fi].dval ELSE ResOf(F, Ob("entry", Max(ms)))
+                          IN IF fi \in F.mapped THEN F.mres[CHOOSE j \in 1..Len(F.mres) : F.mres[j].fi = fi].v
+                             ELSE IF ms = {} THEN fs[fi].dval ELSE ResOf(F, Ob("entry", Max(ms)))
             IN RV(IF N.c = "struct" THEN "struct" ELSE "variant", FALSE, 0, DZero, "",
                   IF N.c = "struct" THEN N.name ELSE N.variants[F.vi].ident,
                   [fi \in 1..Len(fs) |-> [k |-> fs[fi].ident, v |-> fv(fi)]])
       [] OTHER -> UnitRV
 
-NextId == Cardinality(made) + 1
+NextId == idc + 1
+WrapRV(kid, v) == RV("wrap", FALSE, 0, DZero, "", "w" \o NatText(kid), <<v>>)
+\* what the catalogue's user functions return on success (the environment of the machine)
+RetValue(F) ==
+    LET N == Nodes[F.n] k == F.fnp.k IN
+    CASE k \in {"from", "try"}   -> WrapRV(FieldsOfNode(N, F.vi)[F.fnp.fi].node, F.fnp.arg)
+      [] k \in {"cfrom", "ctry"} -> RV("struct", FALSE, 0, DZero, "", N.name, <<[k |-> "v", v |-> WrapRV(N.kids[1], F.fnp.arg)]>>)
+      [] k = "map"               -> CHOOSE v \in UnmappedFieldValue(F, N, F.fnp.fi) : TRUE
+      [] k = "validate"          -> ValueOfFrame(F)
+      [] OTHER -> UnitRV
 
 Take(c) ==
     CASE c.e = "enter" ->
             /\ stack' = PushChild(stack, cur, c.n, c.loc, Child(Top(stack), c.ob).val, c.ob, c.ety)
-            /\ UNCHANGED <<made, reps, hist, out, phase, stopped, newAfterStop>>
+            /\ UNCHANGED <<made, reps, hist, out, phase, stopped, newAfterStop, idc, fnf, usedfn>>
       [] c.e = "err" ->
             /\ stack' = AfterErr(stack, NextId, c.ob, c.ans)
             /\ made' = made \cup {NextId}
@@ -65,13 +77,34 @@ Take(c) ==
             /\ hist' = Append(hist, c.ans)
             /\ newAfterStop' = IF stopped THEN newAfterStop + 1 ELSE 0
             /\ stopped' = (c.ans = "b")
-            /\ UNCHANGED <<out, phase>>
-      [] c.e = "mrg" ->
+            /\ idc' = idc + 1
+            /\ UNCHANGED <<out, phase, fnf, usedfn>>
+      [] c.e = "mrg" /\ Top(stack).ph = "merge" ->
             /\ stack' = AfterMrg(stack, c.ans)
             /\ hist' = Append(hist, c.ans)
             /\ stopped' = (stopped /\ c.ans = "b")
             /\ newAfterStop' = IF c.ans = "b" THEN newAfterStop ELSE 0
-            /\ UNCHANGED <<made, reps, out, phase>>
+            /\ UNCHANGED <<made, reps, out, phase, idc, fnf, usedfn>>
+      [] c.e = "mrg" /\ Top(stack).ph # "merge" ->
+            \* the error of a user function enters the error type; except for the second merge of a field try_from this is a new report
+            LET F == Top(stack) isrep == F.ph # "fnm2" IN
+            /\ stack' = AfterFnMrg(stack, c.ans)
+            /\ made' = IF isrep THEN made \cup {F.fnp.id} ELSE made
+            /\ reps' = IF isrep THEN Append(reps, FnDesc(F.fnp.f, c.loc)) ELSE reps
+            /\ hist' = Append(hist, c.ans)
+            /\ newAfterStop' = IF isrep THEN (IF stopped THEN newAfterStop + 1 ELSE 0) ELSE (IF c.ans = "b" THEN newAfterStop ELSE 0)
+            /\ stopped' = IF isrep THEN (c.ans = "b") ELSE (stopped /\ c.ans = "b")
+            /\ UNCHANGED <<out, phase, idc, fnf, usedfn>>
+      [] c.e = "call" ->
+            /\ stack' = AfterCall(stack, c)
+            /\ usedfn' = TRUE
+            /\ UNCHANGED <<made, reps, hist, out, phase, stopped, newAfterStop, idc, fnf>>
+      [] c.e = "ret" ->
+            LET F == Top(stack) IN
+            /\ stack' = AfterRet(stack, c.ok, IF c.ok THEN RetValue(F) ELSE UnitRV, NextId)
+            /\ idc' = IF c.ok THEN idc ELSE idc + 1
+            /\ fnf' = IF ~c.ok /\ CanFail(F.fnp.k) THEN fnf \cup {[f |-> c.f, loc |-> IF F.fnp.k = "try" THEN F.fnp.loc ELSE F.loc]} ELSE fnf
+            /\ UNCHANGED <<made, reps, hist, out, phase, stopped, newAfterStop, usedfn>>
       [] c.e = "exit" ->
             LET F == Top(stack)
                 v == IF c.ok THEN ValueOfFrame(F) ELSE UnitRV
@@ -79,7 +112,7 @@ Take(c) ==
             IN /\ stack' = AfterExit(stack, c.ok, v, ids)
                /\ phase' = IF Len(stack) = 1 THEN "done" ELSE phase
                /\ out' = IF Len(stack) = 1 THEN [z |-> IF c.ok THEN "ok" ELSE "err", val |-> v, ids |-> ids] ELSE out
-               /\ UNCHANGED <<made, reps, hist, stopped, newAfterStop>>
+               /\ UNCHANGED <<made, reps, hist, stopped, newAfterStop, idc, fnf, usedfn>>
 
 Next == \/ /\ phase = "running"
            /\ \E c \in Candidates(stack, cur) : Take(c)
@@ -101,7 +134,7 @@ Inv_C01 == Done => /\ (out.z = "ok" => made = {})
 Inv_C01_local == \A c \in Candidates(stack, cur) : (c.e = "exit" /\ c.ok) => Top(stack).since = {}
 
 \* C02: a keep-going error type receives exactly the independent faults of the payload, whatever the order
-FaultsOfInput == Faults(cur.ty, cur.val, <<>>, cur.pk)
+FaultsOfInput == Faults(cur.ty, cur.val, <<>>, cur.pk, fnf)
 Inv_C02 == (Done /\ AllC) => SameBag(reps, FaultsOfInput)
 \* ... and a frame never returns while obligations are pending unless a stop was answered
 Inv_C02_local == \A c \in Candidates(stack, cur) : c.e = "exit" => (Top(stack).pend = {} \/ Top(stack).brk \/ Top(stack).ph \in {"fin", "leafok"})
@@ -167,9 +200,14 @@ EqMod(a, b) ==
            [] a.r \in {"list", "some"} -> Len(a.e) = Len(b.e) /\ \A i \in 1..Len(a.e) : EqMod(a.e[i], b.e[i])
            [] a.r \in {"struct", "variant"} -> Len(a.e) = Len(b.e) /\ \A i \in 1..Len(a.e) : a.e[i].k = b.e[i].k /\ EqMod(a.e[i].v, b.e[i].v)
            [] OTHER -> a = b
-Inv_C15 == (Done /\ out.z = "ok") => EqMod(out.val, ValueOf(cur.ty, cur.val, cur.pk))
+Inv_C15 == (Done /\ out.z = "ok" /\ ~usedfn) => EqMod(out.val, ValueOf(cur.ty, cur.val, cur.pk))
 \* a successful call means the payload has no fault, and vice versa under keep-going
 Inv_OkIffNoFaults == (Done /\ AllC) => ((out.z = "ok") <=> (FaultsOfInput = <<>>))
+
+\* C11: a conversion / map / validate function is only ever due in a frame that has seen no failure, and validate only after every map
+Inv_C11 == \A c \in Candidates(stack, cur) :
+              (c.e = "call" /\ c.k \in {"map", "validate"}) => (~Top(stack).fail /\ ~Top(stack).brk /\ Top(stack).pend = {} /\ Top(stack).since = {})
+Inv_C11_once == \A j \in 1..Len(stack) : \A a, b \in 1..Len(stack[j].mres) : stack[j].mres[a].fi = stack[j].mres[b].fi => a = b
 
 EmitReplay == (Done /\ Canonical) => PrintT(<<"REPLAY", ToJson([idx |-> cur.idx, hist |-> hist])>>)
 =============================================================================
